@@ -76,6 +76,9 @@ func genWrite(t *rapid.T) WriteCase {
 	// existing .gitignore shapes: no final newline, empty, blank lines at either end, trailing
 	// blanks on the last line, CRLF — --init may only append to whatever is there
 	gitignores := []string{"bin/\n*.log", "", "\n\n  lead\nbin/\n\n\n", "a\r\nb\r\n", "x \t\n", "node_modules/\n"}
+	// long ones: 4096 bytes exactly, one more, and some 8 KB (sizes at which buffered readers turn a page)
+	line := "build/output-directory-number-0000/\n"
+	gitignores = append(gitignores, strings.Repeat(line, 4096/len(line))+strings.Repeat("#", 4096%len(line)-1)+"\n", strings.Repeat(line, 4096/len(line))+strings.Repeat("#", 4096%len(line))+"\n", strings.Repeat(line, 230), strings.Repeat("a\r\n", 1500))
 	if k := rapid.IntRange(0, len(gitignores)).Draw(t, "gitignore"); k > 0 {
 		g := gitignores[k-1]
 		c.GitIgnore = &g
